@@ -91,4 +91,5 @@ C06_KEYS = ['CheckMixin.is_class_enum', 'CheckMixin.is_global_enum', 'CheckMixin
             'MatlabWrapper._wrap_variable_arguments', 'MatlabWrapper._wrap_method_check_statement', 'FormatMixin._format_type_name', 'MatlabWrapper._unwrap_argument', 'MatlabWrapper._wrapper_unwrap_arguments',
             'Namespace.full_namespaces', 'FormatMixin._format_static_method', 'FormatMixin._format_global_function',
             'MatlabWrapper.wrap_collector_function_shared_return', 'MatlabWrapper.wrap_collector_function_return_types',
-            'MatlabWrapper._collector_return', 'MatlabWrapper.wrap_collector_function_return']
+            'MatlabWrapper._collector_return', 'MatlabWrapper.wrap_collector_function_return',
+            'FormatMixin._format_return_type', 'MatlabWrapper._wrap_args']
